@@ -95,6 +95,7 @@ class Pure:
         cls.byvar = {}
         cls.axioms = []
         cls.var_axioms = {}
+        cls.defs = {}
         cls.counter = itertools.count()
 
     @classmethod
@@ -148,12 +149,38 @@ class Pure:
         hit = cls.byvar.get(t.get_id())
         return None if hit is None else (hit[0], hit[1])
 
+    defs = {}  # named variable id -> defining term (symx.named)
+
     @classmethod
-    def congruence(cls, names=None):
+    def near(cls, exprs, depth=2):
+        """ids of purified variables occurring in exprs, looking through at most `depth` levels of named-variable
+        definitions (not through the arguments of purified applications)"""
+        out, seen = set(), set()
+        frontier = [(e, 0) for e in exprs]
+        while frontier:
+            t, d = frontier.pop()
+            k = (t.get_id(), d)
+            if t.get_id() in seen:
+                continue
+            seen.add(t.get_id())
+            if z3.is_const(t):
+                i = t.get_id()
+                if i in cls.byvar:
+                    out.add(i)
+                elif i in cls.defs and d < depth:
+                    frontier.append((cls.defs[i], d + 1))
+            else:
+                frontier.extend((c, d) for c in t.children())
+        return out
+
+    @classmethod
+    def congruence(cls, names=None, within=None):
         """Ackermann implications for pairs of applications of the same function"""
         out = []
         groups = {}
         for (v, name, args) in cls.tab.values():
+            if within is not None and v.get_id() not in within:
+                continue
             if names is None or name in names:
                 groups.setdefault((name, len(args)), []).append((v, args))
         for lst in groups.values():
@@ -514,6 +541,7 @@ def named(t, prefix="n"):
     if Ctx.cur is None:
         raise Unsupported("named outside exploration")
     Ctx.cur.assume(v == lift(t))
+    Pure.defs[v.get_id()] = lift(t)
     return SReal(v)
 
 
